@@ -407,6 +407,9 @@ func pointFeatures(context *api.Context, f b6.Feature) (b6.Collection[b6.Feature
 // Return a collection of the path features referencing the given point.
 // Keys are the ids of the respective paths.
 func pointPaths(context *api.Context, id b6.Identifiable) (b6.Collection[b6.FeatureID, b6.PhysicalFeature], error) {
+	if err := requireIdentifiable("point-paths", id); err != nil {
+		return b6.Collection[b6.FeatureID, b6.PhysicalFeature]{}, err
+	}
 	p := context.World.FindFeatureByID(id.FeatureID())
 	if p == nil {
 		return b6.Collection[b6.FeatureID, b6.PhysicalFeature]{}, fmt.Errorf("No point with id %s", id)
